@@ -1394,8 +1394,7 @@ impl fmt::Display for InstrAt
 			Instruction::Adc{dst, rhs} => write!(f, "ADCS {dst}, {rhs};"),
 			Instruction::Add{flags, dst, lhs, rhs} =>
 			{
-				if rhs == ImmReg::Register(Register::SP) {write!(f, "ADD{} {dst}, {rhs}, {lhs};", if flags {"S"} else {""})}
-				else {write!(f, "ADD{} {dst}, {lhs}, {rhs};", if flags {"S"} else {""})}
+				write!(f, "ADD{} {dst}, {lhs}, {rhs};", if flags {"S"} else {""})
 			},
 			Instruction::Adr{dst, off} => write!(f, "ADR {dst}, l_{:08X};", (self.addr & !0b11).wrapping_add(4).wrapping_add(off as u32)),
 			Instruction::And{dst, rhs} => write!(f, "ANDS {dst}, {rhs};"),
